@@ -15,6 +15,7 @@ import (
 	"os"
 	"path/filepath"
 	"runtime"
+	"runtime/debug"
 	"sort"
 	"strings"
 	"time"
@@ -194,6 +195,9 @@ func (c *countRS) Read(p []byte) (int, error) {
 		} else {
 			c.ctx.cancel() // "another goroutine" cancels while the reader is inside this Read
 		}
+	}
+	if c.callsAtReal > 0 && c.calls > c.callsAtReal && os.Getenv("VERIF_C10_STACK") != "" {
+		fmt.Fprintf(os.Stderr, "read %d after cancel:\n%s\n", c.calls-c.callsAtReal, debug.Stack())
 	}
 	n, err := c.r.Read(p)
 	c.bytes += int64(n)
